@@ -246,6 +246,12 @@ def _compare_worlds(ctx, rep, t, D, va, vb, na, nb, upa, upb, cfg, uc, A,
           else 1.0) * 1e-6
       kappa = float(w[-1]) / lo if lo > 0 else float('inf')
       rel = 16 * u32 + 256 * uc * kappa
+      # the two worlds' statistics evolve separately (rounding of different
+      # compiled programs, int16 re-quantization): a relative difference in S
+      # is amplified by the condition number in the root
+      scS = float(np.max(np.abs(Sb))) if Sb.size else 0.0
+      relS = float(np.max(np.abs(Sa - Sb))) / scS if scS > 0 else 0.0
+      rel += 4.0 * kappa * relS
       if cfg.get('best_effort_memory_usage_reduction'):
         rel += 4.0 / 32767
       if not np.isfinite(rel) or rel > 1e-2:
